@@ -176,3 +176,139 @@ SUBS = [
     Sub("unequal", sub_unequal, st_uneq, 300, 10000, nontrivial=lambda c: True),
     Sub("bulk", sub_bulk, st_bulk, 16, 400, nontrivial=lambda c: True, shards_quick=4),
 ]
+
+
+# ---- CLI level: evo_ape on generated files (S7 / S8) -------------------------------------------------
+
+import os
+import tempfile
+
+from vf import cli, pipeline
+from vf.core import Skip
+
+
+def _find(arch, path):
+    for k, v in arch["trajs"].items():
+        if k == path or k.endswith(os.path.basename(path)):
+            return v
+    raise Mismatch("archive holds no trajectory for %s (members %s)" % (path, sorted(arch["trajs"])), observed="archive_members")
+
+
+def run_cli_case(case, app="ape", extra_argv=()):
+    d = tempfile.mkdtemp(prefix="cli_", dir=os.getcwd())
+    fmt = case["fmt"]
+    c = dict(case)
+    if fmt == "kitti":
+        c["data"] = dict(case["data"], keep=1.0, jitter=0.0)
+        c["opts"] = dict(case["opts"], t_offset=0.0)
+    ref, est = pipeline.make_inputs(c)
+    files = pipeline.write_inputs(d, fmt, ref, est)
+    if fmt == "euroc":
+        # the file stores integer nanoseconds: the loaded stamp is float(ns)/1e9 (C07 decides that conversion)
+        ns = [int(round(t * 1e9)) for t in ref[0]]
+        ref = (np.array([float(v) for v in ns]) / 1e9, ref[1], ref[2])
+    cfg = pipeline.write_cfg(d)
+    out_zip = os.path.join(d, "out.zip")
+    argv = pipeline.base_argv(c, files, out_zip, cfg) + list(extra_argv)
+    out = cli.run(app, argv, cwd=d)
+    return c, d, ref, est, files, out, out_zip
+
+
+def sub_cli(case):
+    c, d, ref, est, files, out, out_zip = run_cli_case(case)
+    o = c["opts"]
+    fmt = c["fmt"]
+    exp = pipeline.process_reference(c, fmt, ref, est)
+    if out.exit_code != 0:
+        if exp == "refused":
+            return "refused"
+        n = len(exp[0])
+        used = n if o.get("n_to_align", -1) == -1 else min(o["n_to_align"], n)
+        if (o.get("align") or o.get("correct_scale")):
+            sv, _ = rm.covariance_singular_values(est[1][exp[1]][:used].T, ref[1][exp[0]][:used].T)
+            if used < 3 or sv[1] <= max(1e-10, 1e-11 * sv[0]):
+                return "refused_alignment"
+        raise Mismatch("evo_ape failed (%s) although the documented chain keeps %d pairs; argv options %s" % (out.refused, n, {k: v for k, v in o.items() if v}),
+                       observed="cli_failed")
+    if exp == "refused":
+        raise Mismatch("evo_ape produced a result although the documented processing chain leaves no pose pairs / must refuse; options %s" % (
+            {k: v for k, v in o.items() if v},), observed="missing_refusal")
+    if not os.path.exists(out_zip):
+        raise Mismatch("evo_ape wrote no result archive", observed="no_archive")
+    arch = cli.read_archive(out_zip)
+    arch["trajs"] = {"ref": _find(arch, files[1]), "est": _find(arch, files[2])}
+    rsel, esel = exp
+    sref, sest = pipeline.check_alignment_stage(c, arch, ref, est, rsel, esel, "ape")
+    # S7: stored values are the definition applied to the stored processed pairs
+    relation = pipeline.REL_CLI[o["relation"]]
+    vals = rm.ape_values(sref["poses"], sest["poses"], relation)
+    unit = o.get("change_unit")
+    fact = 1.0
+    if unit:
+        if relation in ("translation_part", "point_distance") and unit in pipeline.UNIT_FACT:
+            fact = pipeline.UNIT_FACT[unit]
+        elif relation == "rotation_angle_rad" and unit == "deg":
+            fact = 180.0 / math.pi
+        elif relation == "rotation_angle_deg" and unit == "rad":
+            fact = math.pi / 180.0
+    scale = max(float(np.abs(sref["P"]).max()), float(np.abs(sest["P"]).max())) + 1.0
+    got = np.asarray(arch["arrays"]["error_array"], dtype=float)
+    if got.shape != vals.shape:
+        raise Mismatch("archive holds %d error values for %d stored pose pairs" % (got.size, vals.size), observed="count", relation=relation)
+    for k in range(len(vals)):
+        tol = tol_for(relation, scale, vals[k]) * abs(fact) * 4 + 1e-12 * abs(vals[k] * fact)
+        if not abs(got[k] - vals[k] * fact) <= tol:
+            raise Mismatch("stored error value %d is %r, definition on the stored pair gives %r (%s, unit factor %r)" % (k, float(got[k]), float(vals[k] * fact), relation, fact),
+                           observed="value", relation=relation)
+    if sest["T"] is not None:
+        if not np.array_equal(np.asarray(arch["arrays"]["timestamps"]), sest["T"]):
+            raise Mismatch("timestamps array of the archive is not the stored estimate's stamps", observed="timestamps")
+    st_ref = rm.statistics(got)
+    for k, v in st_ref.items():
+        if not abs(float(arch["stats"][k]) - v) <= 1e-9 * max(abs(v), abs(float(arch["stats"][k]))) + 1e-300 + (1e-9 * abs(st_ref["mean"]) if k == "std" else 0):
+            raise Mismatch("stats.json %s = %r, values give %r" % (k, arch["stats"][k], v), observed="stats")
+    active = [k for k in ("align", "correct_scale", "align_origin", "downsample", "motion_filter", "t_start", "t_end", "project", "change_unit") if o.get(k)]
+    return "cli/%s/%d_opts" % (fmt, min(len(active), 3))
+
+
+def _mk_cli_case(fmt, data, relation, align_mode, correct_scale, n_to_align, downsample, mf, tmd, toff, crop, project, unit):
+    opts = {"relation": relation, "align": align_mode == "align", "align_origin": align_mode == "origin", "correct_scale": correct_scale,
+            "n_to_align": n_to_align if (align_mode == "align" or correct_scale) else -1, "downsample": downsample, "motion_filter": mf,
+            "t_max_diff": tmd, "t_offset": toff, "project": project, "change_unit": None}
+    n = data["n"]
+    t0, dt = data["t0"], data["dt"]
+    if crop is not None and fmt != "kitti":
+        a, b = sorted((crop[0] % n, crop[1] % n))
+        # bounds half-way between stamps, farther than t_max_diff + |offset| + jitter from every stamp of both files
+        opts["t_start"] = t0 + (a - 0.5) * dt if crop[2] else None
+        opts["t_end"] = t0 + (b + 0.5) * dt if crop[3] else None
+        if opts["t_start"] is not None and opts["t_start"] <= 0:
+            opts["t_start"] = None
+        if opts["t_start"] is not None or opts["t_end"] is not None:
+            # with an offset it is not defined on which of the two time lines the crop bounds live
+            opts["t_offset"] = 0.0
+    if unit:
+        rel = pipeline.REL_CLI[relation]
+        if rel in ("translation_part", "point_distance"):
+            opts["change_unit"] = unit
+        elif rel == "rotation_angle_rad":
+            opts["change_unit"] = "deg"
+        elif rel == "rotation_angle_deg":
+            opts["change_unit"] = "rad"
+    return {"fmt": fmt, "data": data, "opts": opts}
+
+
+st_data = st.fixed_dictionaries({
+    "n": st.integers(4, 40), "t0": st.sampled_from([10.0, 1.5e9, 1403636579.5]), "dt": st.sampled_from([0.1, 0.05, 1.0]),
+    "seed": st.integers(0, 2 ** 32), "step": st.sampled_from([0.01, 0.5, 20.0]), "off": st.integers(0, 2), "still": st.sampled_from([0.0, 0.3]),
+    "axis": st.lists(gen.unit_f, min_size=3, max_size=3), "keep": st.sampled_from([1.0, 0.8, 0.5]), "jitter": st.sampled_from([0.0, 0.001, 0.004]),
+    "scale": st.sampled_from([1.0, 1.0, 0.5, 7.25]), "noise": st.sampled_from([0.0, 0.01, 0.5])})
+st_cli = st.builds(
+    _mk_cli_case, st.sampled_from(["tum", "tum", "euroc", "kitti"]), st_data, st.sampled_from(sorted(pipeline.REL_CLI)),
+    st.sampled_from(["none", "align", "origin"]), st.booleans(), st.sampled_from([-1, -1, 3, 5, 10]), st.sampled_from([None, None, 3, 10, 1000]),
+    st.sampled_from([None, None, [0.1, 5.0], [1.0, 0.5], [0.0, 0.0]]), st.sampled_from([0.01, 0.01, 0.005, 0.02]),
+    st.sampled_from([0.0, 0.0, 0.5, -2.25]), st.one_of(st.none(), st.tuples(st.integers(0, 40), st.integers(0, 40), st.booleans(), st.booleans())),
+    st.sampled_from([None, None, "xy", "xz", "yz"]), st.sampled_from([None, None, "mm", "cm", "km"]))
+
+SUBS.append(Sub("cli", sub_cli, st_cli, 800, 30000, nontrivial=lambda c: any(c["opts"].get(k) for k in (
+    "align", "correct_scale", "align_origin", "downsample", "motion_filter", "t_start", "t_end", "project", "change_unit", "t_offset")), shards_quick=8))
